@@ -95,12 +95,12 @@ Proof.
 Qed.
 
 Lemma add_timeout_ginv s g r xt' l :
-  GInv s g -> g_xt g = r :: xt' -> g_pend g = [] -> aget (store s) r = Some l -> l_long l = false ->
+  GInv s g -> g_xt g = r :: xt' -> g_pend g = [] -> g_ph g = [] -> aget (store s) r = Some l -> l_long l = false ->
   occ r (holders (getm s (l_key l))) = O -> ecount s g r = O -> l_locked l = 0 ->
   occ r (m_wq (getm s (l_key l))) = 1%nat ->
   GInv (add_timeout s r) (g <| g_xt := xt' |> <| g_cw := (g_cw g + 1 - liveb l)%Z |>).
 Proof.
-  intros G Hx Hp Hr Hlg Hh He Hd Hw.
+  intros G Hx Hp Hph Hr Hlg Hh He Hd Hw.
   destruct (tl_zero_of_xt s g r xt' l G Hx Hr) as [Z1 [Z2 [Z3 Z4]]].
   destruct (gi_rec _ _ G r l Hr) as [A1 A2 A3 A4 A5 A6 A7 A8 A9 A10 A11].
   unfold add_timeout. rewrite (updl_some _ _ _ _ Hr).
@@ -117,7 +117,8 @@ Proof.
     pose proof (ginv_pend_add s g r G) as G1.
     assert (G2 : GInv (setl s r l2) (g <| g_pend := r :: g_pend g |> <| g_cw := (g_cw g + liveb l2 - liveb l)%Z |>)).
     { apply (setl_flags s _ r l l2 G1 Hr); auto.
-      intros _ Hpe. gs. rewrite occ_cons_eq in Hpe. discriminate. }
+      - intros _ Hpe. gs. rewrite occ_cons_eq in Hpe. discriminate.
+      - gs. rewrite Hph. simpl. tauto. }
     set (s2 := setl s r l2) in *.
     assert (G3 : GInv (s2 <| tlong := wheel_push (tlong s2) (lkey tT') r |>)
                       (g <| g_pend := r :: g_pend g |> <| g_cw := (g_cw g + liveb l2 - liveb l)%Z |> <| g_xt := xt' |>)).
@@ -140,7 +141,7 @@ Proof.
     { unfold s2, setl. destruct s; cbn. rewrite aset_aset. reflexivity. }
     rewrite Eq.
     assert (G2 : GInv (setl s r l3) (g <| g_cw := (g_cw g + liveb l3 - liveb l)%Z |>)).
-    { apply (setl_flags s _ r l l3 G Hr); auto. simpl. discriminate. }
+    { apply (setl_flags s _ r l l3 G Hr); auto; [simpl; discriminate|rewrite Hph; simpl; tauto]. }
     eapply ginv_geq; [eapply (push_t_ginv (setl s r l3) _ _ r xt' (slot_of d) false G2); gs; auto|].
     + intros l0 H0 Hl0. rewrite store_setl, aget_aset_same in H0. inversion H0; subst l0. discriminate.
     + destruct g; gs; subst. unfold liveb. change (l_timeouted l3) with false. reflexivity.
@@ -311,4 +312,176 @@ Proof.
       apply N.eqb_neq in Hne. rewrite Hne. rewrite Ek. exact Q.
   - intros r0 H0. pose proof (gi_str _ _ G r0 H0) as S. unfold tcount, ecount in *. gs. rewrite E5, E6.
     specialize (Hsum r0). destruct is_t; destruct Hw as [Hw1 Hw2]; rewrite Hw1, Hw2; unfold w in Hsum; lia.
+Qed.
+
+Lemma wheel_get_some w k r : (0 < occ r (wheel_get w k))%nat -> exists q, aget w k = Some q /\ wheel_get w k = q.
+Proof. unfold wheel_get. destruct (aget w k) as [q|]; [eauto|simpl; lia]. Qed.
+
+(* consuming a g_pre unit: refCount-- together with clearing the long flag *)
+Lemma setl_unlong_decref s g r l pre' :
+  GInv s g -> aget (store s) r = Some l -> g_pre g = r :: pre' -> occ r pre' = O -> g_owe g = [] -> g_ph g = [] ->
+  (0 < l_locked l -> occ r (holders (getm s (l_key l))) = 1%nat) ->
+  GInv (setl s r (l <| l_long := false |> <| l_refc := dec8 (l_refc l) |>)) (g <| g_pre := pre' |>).
+Proof.
+  intros G Hr Hq Hq0 Ho Hp Hh.
+  destruct (rec_counts s g r l G Hr) as [[C1 [C2 [C3 C4]]] _].
+  destruct (gi_rec _ _ G r l Hr) as [A1 A2 A3 A4 A5 A6 A7 A8 A9 A10 A11].
+  rewrite Hq, Ho, Hp, occ_cons_eq, Hq0 in A3. simpl occ in A3.
+  rewrite dec8_pred by lia.
+  set (la := l <| l_refc := l_refc l - 1 |>).
+  assert (Ga : GInv (setl s r la) (g <| g_pre := pre' |>)).
+  { eapply setl_refc; eauto; gs; change (tcount s (g <| g_pre := pre' |>) r) with (tcount s g r);
+      change (ecount s (g <| g_pre := pre' |>) r) with (ecount s g r); rewrite ?Ho, ?Hp, ?Hq0; simpl occ; try lia.
+    - rewrite Hq. occ_others.
+    - simpl. tauto. }
+  assert (Hra : aget (store (setl s r la)) r = Some la) by (rewrite store_setl, aget_aset_same; auto).
+  pose proof (setl_flags _ _ r la (la <| l_long := false |>) Ga Hra) as F.
+  rewrite setl_setl in F.
+  eapply ginv_geq; [apply F; auto|].
+  - simpl. discriminate.
+  - gs. rewrite Hp. simpl. tauto.
+  - destruct g; gs. unfold liveb. change (l_timeouted (la <| l_long := false |>)) with (l_timeouted la).
+    rewrite Z.add_simpl_r. reflexivity.
+Qed.
+
+Lemma remove_long_timeout_ginv s g r l :
+  GInv s g -> aget (store s) r = Some l -> (0 < occ r (g_pend g))%nat ->
+  g_pre g = [] -> g_owe g = [] -> g_ph g = [] ->
+  occ r (wheel_get (tlong s) (lkey (l_tT l))) = 1%nat ->
+  (0 < l_locked l -> occ r (holders (getm s (l_key l))) = 1%nat) ->
+  GInv (remove_long_timeout s r) g.
+Proof.
+  intros G Hr Hpe Hq Ho Hp Hoc Hh. unfold remove_long_timeout. rewrite (getl_some _ _ _ Hr).
+  destruct (wheel_get_some (tlong s) (lkey (l_tT l)) r) as [q [Hq1 Hq2]]; [lia|]. rewrite Hq1.
+  set (s1 := s <| tlong := match remove_ref q r with [] => adel (tlong s) (lkey (l_tT l)) | _ => aset (tlong s) (lkey (l_tT l)) (remove_ref q r) end |>).
+  assert (G1 : GInv s1 (g <| g_pre := r :: g_pre g |>)).
+  { eapply (long_remove_ginv s s1 g r l true (lkey (l_tT l))); eauto. cbv zeta. rewrite Hq2. split; reflexivity. }
+  assert (Hr1 : aget (store s1) r = Some l) by exact Hr.
+  rewrite (updl_some _ _ _ _ Hr1).
+  eapply ginv_geq; [eapply (setl_unlong_decref s1 _ r l [] G1 Hr1); gs; auto; rewrite Hq; reflexivity|].
+  destruct g; gs; subst; reflexivity.
+Qed.
+
+Lemma remove_long_expried_ginv s g r l eT :
+  GInv s g -> aget (store s) r = Some l -> (0 < occ r (g_pend g))%nat ->
+  g_pre g = [] -> g_owe g = [] -> g_ph g = [] ->
+  occ r (wheel_get (elong s) (lkey eT)) = 1%nat ->
+  (0 < l_locked l -> occ r (holders (getm s (l_key l))) = 1%nat) ->
+  GInv (remove_long_expried s r eT) g.
+Proof.
+  intros G Hr Hpe Hq Ho Hp Hoc Hh. unfold remove_long_expried.
+  destruct (wheel_get_some (elong s) (lkey eT) r) as [q [Hq1 Hq2]]; [lia|]. rewrite Hq1.
+  set (s1 := s <| elong := match remove_ref q r with [] => adel (elong s) (lkey eT) | _ => aset (elong s) (lkey eT) (remove_ref q r) end |>).
+  assert (G1 : GInv s1 (g <| g_pre := r :: g_pre g |>)).
+  { eapply (long_remove_ginv s s1 g r l false (lkey eT)); eauto. cbv zeta. rewrite Hq2. split; reflexivity. }
+  assert (Hr1 : aget (store s1) r = Some l) by exact Hr.
+  rewrite (updl_some _ _ _ _ Hr1).
+  eapply ginv_geq; [eapply (setl_unlong_decref s1 _ r l [] G1 Hr1); gs; auto; rewrite Hq; reflexivity|].
+  destruct g; gs; subst; reflexivity.
+Qed.
+
+(* ---------------------------------------------------------------- sweepers pop their references *)
+Lemma pop_t_ginv s g slot r rest :
+  GInv s g -> wheel_get (twheel s) slot = r :: rest ->
+  GInv (s <| twheel := aset (twheel s) slot rest |>) (g <| g_xt := r :: g_xt g |>).
+Proof.
+  intros G Hw.
+  assert (Hoc : forall r0, (occ r0 (wrefs (aset (twheel s) slot rest)) + occ r0 [r] = occ r0 (wrefs (twheel s)))%nat).
+  { intros r0. pose proof (occ_wrefs_aset r0 (twheel s) slot rest (gi_wf_tw _ _ G)) as A. rewrite Hw, occ_cons in A.
+    rewrite occ_single. lia. }
+  eapply wheels_ginv; eauto; gs; try (apply G).
+  - apply awf_aset, (gi_wf_tw _ _ G).
+  - intros r0 l0 H0. destruct (gi_rec _ _ G r0 l0 H0) as [A1 A2 A3 A4 A5 A6 A7 A8 A9 A10 A11].
+    unfold tcount, ecount in *. gs. specialize (Hoc r0). rewrite occ_cons. rewrite occ_single in Hoc.
+    change (twheel (s <| twheel := aset (twheel s) slot rest |>)) with (aset (twheel s) slot rest).
+    change (tlong (s <| twheel := aset (twheel s) slot rest |>)) with (tlong s).
+    change (ewheel (s <| twheel := aset (twheel s) slot rest |>)) with (ewheel s).
+    change (elong (s <| twheel := aset (twheel s) slot rest |>)) with (elong s).
+    repeat split; try lia; auto.
+  - intros r0 H0. pose proof (gi_str _ _ G r0 H0) as S. unfold tcount, ecount in *. gs. specialize (Hoc r0).
+    rewrite occ_cons. rewrite occ_single in Hoc.
+    change (twheel (s <| twheel := aset (twheel s) slot rest |>)) with (aset (twheel s) slot rest).
+    change (tlong (s <| twheel := aset (twheel s) slot rest |>)) with (tlong s).
+    change (ewheel (s <| twheel := aset (twheel s) slot rest |>)) with (ewheel s).
+    change (elong (s <| twheel := aset (twheel s) slot rest |>)) with (elong s). lia.
+Qed.
+
+Lemma pop_e_ginv s g slot r rest :
+  GInv s g -> wheel_get (ewheel s) slot = r :: rest ->
+  GInv (s <| ewheel := aset (ewheel s) slot rest |>) (g <| g_xe := r :: g_xe g |>).
+Proof.
+  intros G Hw.
+  assert (Hoc : forall r0, (occ r0 (wrefs (aset (ewheel s) slot rest)) + occ r0 [r] = occ r0 (wrefs (ewheel s)))%nat).
+  { intros r0. pose proof (occ_wrefs_aset r0 (ewheel s) slot rest (gi_wf_ew _ _ G)) as A. rewrite Hw, occ_cons in A.
+    rewrite occ_single. lia. }
+  eapply wheels_ginv; eauto; gs; try (apply G).
+  - apply awf_aset, (gi_wf_ew _ _ G).
+  - intros r0 l0 H0. destruct (gi_rec _ _ G r0 l0 H0) as [A1 A2 A3 A4 A5 A6 A7 A8 A9 A10 A11].
+    unfold tcount, ecount in *. gs. specialize (Hoc r0). rewrite occ_cons. rewrite occ_single in Hoc.
+    change (ewheel (s <| ewheel := aset (ewheel s) slot rest |>)) with (aset (ewheel s) slot rest).
+    change (tlong (s <| ewheel := aset (ewheel s) slot rest |>)) with (tlong s).
+    change (twheel (s <| ewheel := aset (ewheel s) slot rest |>)) with (twheel s).
+    change (elong (s <| ewheel := aset (ewheel s) slot rest |>)) with (elong s).
+    repeat split; try lia; auto.
+  - intros r0 H0. pose proof (gi_str _ _ G r0 H0) as S. unfold tcount, ecount in *. gs. specialize (Hoc r0).
+    rewrite occ_cons. rewrite occ_single in Hoc.
+    change (ewheel (s <| ewheel := aset (ewheel s) slot rest |>)) with (aset (ewheel s) slot rest).
+    change (tlong (s <| ewheel := aset (ewheel s) slot rest |>)) with (tlong s).
+    change (twheel (s <| ewheel := aset (ewheel s) slot rest |>)) with (twheel s).
+    change (elong (s <| ewheel := aset (ewheel s) slot rest |>)) with (elong s). lia.
+Qed.
+
+(* a whole long-table bucket is taken out: its entries are pending (exempt from the bucket clause) *)
+Lemma bucket_t_ginv s g key items :
+  GInv s g -> aget (tlong s) key = Some items ->
+  GInv (s <| tlong := adel (tlong s) key |>) (g <| g_xt := items ++ g_xt g |> <| g_pend := items ++ g_pend g |>).
+Proof.
+  intros G Hw.
+  assert (Hg : wheel_get (tlong s) key = items) by (unfold wheel_get; rewrite Hw; auto).
+  assert (Hoc : forall r0, (occ r0 (wrefs (adel (tlong s) key)) + occ r0 items = occ r0 (wrefs (tlong s)))%nat).
+  { intros r0. pose proof (occ_wrefs_adel r0 (tlong s) key (gi_wf_tl _ _ G)) as A. rewrite Hg in A. lia. }
+  eapply wheels_ginv; eauto; gs; try (apply G).
+  - apply awf_adel, (gi_wf_tl _ _ G).
+  - intros r0 l0 H0. destruct (gi_rec _ _ G r0 l0 H0) as [A1 A2 A3 A4 A5 A6 A7 A8 A9 A10 A11].
+    unfold tcount, ecount in *. gs. specialize (Hoc r0). rewrite !occ_app.
+    change (tlong (s <| tlong := adel (tlong s) key |>)) with (adel (tlong s) key).
+    change (twheel (s <| tlong := adel (tlong s) key |>)) with (twheel s).
+    change (ewheel (s <| tlong := adel (tlong s) key |>)) with (ewheel s).
+    change (elong (s <| tlong := adel (tlong s) key |>)) with (elong s).
+    repeat split; try lia; auto.
+    + intros Ht. assert (Hp0 : occ r0 (g_pend g) = O) by lia. destruct (A8 H Hp0) as [Q _]. specialize (Q Ht).
+      rewrite wheel_get_adel. destruct (key =? lkey (l_tT l0)) eqn:Ek; auto.
+      apply N.eqb_eq in Ek. rewrite <- Ek, Hg in Q. lia.
+  - intros r0 H0. pose proof (gi_str _ _ G r0 H0) as S. unfold tcount, ecount in *. gs. specialize (Hoc r0). rewrite !occ_app.
+    change (tlong (s <| tlong := adel (tlong s) key |>)) with (adel (tlong s) key).
+    change (twheel (s <| tlong := adel (tlong s) key |>)) with (twheel s).
+    change (ewheel (s <| tlong := adel (tlong s) key |>)) with (ewheel s).
+    change (elong (s <| tlong := adel (tlong s) key |>)) with (elong s). lia.
+Qed.
+
+Lemma bucket_e_ginv s g key items :
+  GInv s g -> aget (elong s) key = Some items ->
+  GInv (s <| elong := adel (elong s) key |>) (g <| g_xe := items ++ g_xe g |> <| g_pend := items ++ g_pend g |>).
+Proof.
+  intros G Hw.
+  assert (Hg : wheel_get (elong s) key = items) by (unfold wheel_get; rewrite Hw; auto).
+  assert (Hoc : forall r0, (occ r0 (wrefs (adel (elong s) key)) + occ r0 items = occ r0 (wrefs (elong s)))%nat).
+  { intros r0. pose proof (occ_wrefs_adel r0 (elong s) key (gi_wf_el _ _ G)) as A. rewrite Hg in A. lia. }
+  eapply wheels_ginv; eauto; gs; try (apply G).
+  - apply awf_adel, (gi_wf_el _ _ G).
+  - intros r0 l0 H0. destruct (gi_rec _ _ G r0 l0 H0) as [A1 A2 A3 A4 A5 A6 A7 A8 A9 A10 A11].
+    unfold tcount, ecount in *. gs. specialize (Hoc r0). rewrite !occ_app.
+    change (elong (s <| elong := adel (elong s) key |>)) with (adel (elong s) key).
+    change (twheel (s <| elong := adel (elong s) key |>)) with (twheel s).
+    change (ewheel (s <| elong := adel (elong s) key |>)) with (ewheel s).
+    change (tlong (s <| elong := adel (elong s) key |>)) with (tlong s).
+    repeat split; try lia; auto.
+    + intros Ht. assert (Hp0 : occ r0 (g_pend g) = O) by lia. destruct (A8 H Hp0) as [_ Q]. specialize (Q Ht).
+      rewrite wheel_get_adel. destruct (key =? lkey (l_eT l0)) eqn:Ek; auto.
+      apply N.eqb_eq in Ek. rewrite <- Ek, Hg in Q. lia.
+  - intros r0 H0. pose proof (gi_str _ _ G r0 H0) as S. unfold tcount, ecount in *. gs. specialize (Hoc r0). rewrite !occ_app.
+    change (elong (s <| elong := adel (elong s) key |>)) with (adel (elong s) key).
+    change (twheel (s <| elong := adel (elong s) key |>)) with (twheel s).
+    change (ewheel (s <| elong := adel (elong s) key |>)) with (ewheel s).
+    change (tlong (s <| elong := adel (elong s) key |>)) with (tlong s). lia.
 Qed.
